@@ -690,6 +690,9 @@ func onceCase(c *mon.Case) {
 		switch oc.outcome {
 		case 0:
 			oc.val = 100 + n
+			if n%3 == 0 {
+				oc.val = 0 // a success whose value is the zero value of T is a success like any other
+			}
 		case 1:
 			oc.err = fmt.Errorf("fn-error-%d", n)
 			if n%3 == 0 {
@@ -863,6 +866,17 @@ func onceCase(c *mon.Case) {
 					}
 				}
 			}
+		}
+	}
+	if success != nil && !c.Violated() {
+		// a later Resolve: same value, no further call
+		before := ncalls.Load()
+		mu.Unlock()
+		v, err := o.Resolve(context.Background())
+		mu.Lock()
+		c.Count("later_resolves_after_success", 1)
+		if err != nil || v != success.val || ncalls.Load() != before {
+			c.Violate("once", "once-called-after-success", "a Resolve issued after everything had settled returned (%d, %v) with %d function calls in total (before: %d); the successful call %d had returned %d", v, err, ncalls.Load(), before, success.n, success.val)
 		}
 	}
 	if sawRetry {
